@@ -14,7 +14,10 @@
 (*   ts      offset of the signed timestamp from the server's clock, in    *)
 (*           seconds relative to the tolerance tol:                        *)
 (*           "now" | "-tol" | "-tol-1" | "+tol" | "+tol+1" | "far" |       *)
-(*           "garbage" (not a number)                                      *)
+(*           "garbage" (not a number), and the extremes a decimal int64    *)
+(*           can carry: now +- 2^55 (+- half the tolerance), +- 2^56,      *)
+(*           +- 2^62, "zero", "maxint", "minint" - none is within the      *)
+(*           tolerance                                                     *)
 (*   tamper  set of fields altered AFTER signing:                          *)
 (*           "ts" (secret re-encrypted with another, still tolerated       *)
 (*           time), "method", "path", "query", "body", "sig"               *)
@@ -24,6 +27,9 @@
 (*           "wire"    a real connection; a non-empty body is sent with    *)
 (*                     Transfer-Encoding: chunked (length unknown)         *)
 (*           The verdict must not depend on it.                            *)
+(*   server  how the server builds the chain in front of the gate:         *)
+(*           "default" | "chain" (api.WithChain) | "use" (Server.Use) |    *)
+(*           "chain+use".  The verdict must not depend on it.              *)
 (* The statement: the handler runs iff the header decrypts under a         *)
 (* configured key, the timestamp is within the tolerance and the HMAC      *)
 (* matches; altering any signed field yields 403.                          *)
@@ -38,7 +44,10 @@ vars == <<base, picked, out>>
 Methods == {"GET", "POST", "PUT", "DELETE"}
 Fps     == {"known", "known2", "unknown", "missing"}
 Secrets == {"ok", "garbled", "crossed"}
-Offsets == {"now", "-tol", "-tol-1", "+tol", "+tol+1", "far", "garbage"}
+Extremes == {"+2^55", "-2^55", "+2^55+h", "+2^55-h", "-2^55+h", "-2^55-h", "+2^56", "-2^56", "+2^62", "-2^62",
+             "zero", "maxint", "minint"}
+Offsets == {"now", "-tol", "-tol-1", "+tol", "+tol+1", "far", "garbage"} \cup Extremes
+Servers == {"default", "chain", "use", "chain+use"}
 Fields  == {"ts", "method", "path", "query", "body", "sig"}
 Vias    == {"sized", "unknown", "wire"}
 
@@ -58,10 +67,11 @@ Init == base = NoBase /\ picked = FALSE /\ out = [op |-> "init"]
 
 PickBase ==
   /\ base = NoBase
-  /\ \E m \in Methods, fp \in Fps, s \in Secrets, hasbody \in BOOLEAN, via \in Vias :
+  /\ \E m \in Methods, fp \in Fps, s \in Secrets, hasbody \in BOOLEAN, via \in Vias, sv \in Servers :
         /\ (hasbody => m \in {"POST", "PUT", "DELETE"})
         /\ (fp = "missing" => s = "ok")
-        /\ base' = [method |-> m, fp |-> fp, secret |-> s, body |-> hasbody, via |-> via]
+        /\ (via # "sized" => sv = "default")     \* (keeps the product small; the two are independent)
+        /\ base' = [method |-> m, fp |-> fp, secret |-> s, body |-> hasbody, via |-> via, server |-> sv]
   /\ out' = [op |-> "base"]
   /\ UNCHANGED picked
 
@@ -75,8 +85,10 @@ PickRest ==
   /\ \E ts \in Offsets, tm \in SUBSET Fields :
         /\ Cardinality(tm) <= MaxTamper
         /\ (base.fp = "missing" => tm \subseteq {"method", "path", "query", "body"})
+        \* the extreme timestamps are offered on otherwise perfect requests only
+        /\ (ts \in Extremes => tm = {} /\ base.via = "sized" /\ base.secret = "ok" /\ base.fp \in {"known", "known2"})
         /\ Pick([method |-> base.method, fp |-> base.fp, secret |-> base.secret, ts |-> ts,
-                 body |-> base.body, via |-> base.via, tamper |-> tm])
+                 body |-> base.body, via |-> base.via, server |-> base.server, tamper |-> tm])
 
 Next == PickBase \/ PickRest
 
@@ -92,5 +104,9 @@ HonestPasses ==
 \* never enters the verdict
 TransportIrrelevant ==
   picked => \A v \in Vias : Pass([out.req EXCEPT !.via = v]) = (out.expect = "pass")
-OutsideToleranceDenied == picked /\ out.req.ts \in {"-tol-1", "+tol+1", "far", "garbage"} => out.expect = "deny"
+\* the way the server builds its middleware chain never enters the verdict
+ServerIrrelevant ==
+  picked => \A sv \in Servers : Pass([out.req EXCEPT !.server = sv]) = (out.expect = "pass")
+OutsideToleranceDenied ==
+  picked /\ out.req.ts \in {"-tol-1", "+tol+1", "far", "garbage"} \cup Extremes => out.expect = "deny"
 =============================================================================
